@@ -45,6 +45,9 @@ func (f c07File) Coq() string {
 
 var c07Rec = regexp.MustCompile(`data-f="([^"]*)" data-a="([^"]*)" data-b="([^"]*)"`)
 
+// the two orders in which a request builds its template: data first, or file first
+var c07LoadFirst bool
+
 func c07Render(files []c07File, page string, data [][2]string) Obs {
 	m := fstest.MapFS{}
 	for _, f := range files {
@@ -62,7 +65,11 @@ func c07Render(files []c07File, page string, data [][2]string) Obs {
 				err = fmt.Errorf("PANIC %v", x)
 			}
 		}()
-		err = vuego.NewFS(m).Fill(d).Load(page).Render(context.Background(), &buf)
+		if c07LoadFirst {
+			err = vuego.NewFS(m).Load(page).Fill(d).Render(context.Background(), &buf)
+		} else {
+			err = vuego.NewFS(m).Fill(d).Load(page).Render(context.Background(), &buf)
+		}
 	}()
 	if err != nil {
 		s := err.Error()
@@ -178,6 +185,8 @@ func runC07(r *Run) {
 		tags  map[string]string
 	}
 	emit := func(c cfg) {
+		c07LoadFirst = r.Rng.Intn(3) == 0 // Load(page).Fill(data): the page's front-matter still wins over the filled data
+		r.Count(fmt.Sprintf("order:load-first=%v", c07LoadFirst))
 		impl := c07Render(c.files, c.page, c.data)
 		want := c07Oracle(c.files, c.page, c.data, 100)
 		desc := map[string]any{"page": c.page, "data": c.data, "files": func() map[string]string {
